@@ -764,6 +764,8 @@ class Fxp():
         self.scaled = bool(self.scale is not None and self.bias is not None and (self.bias != 0 or self.scale != 1))
         if self.scale is not None and self.bias is not None and not raw:
             if self.bias != 0:
+                if val.dtype.kind in 'iu' and val.size > 0 and max(abs(int(np.max(val))), abs(int(np.min(val)))) >= 2**62:
+                    val = val.astype(object)    # integers close to the 64 bits limits: the bias is subtracted with python integers
                 val = val - self.bias
             if self.scale != 1:
                 val = val / self.scale
